@@ -226,8 +226,10 @@ def check_early(eng, run):
         run.ob("C07.early", f"{fn.short}:limit-error-after-failed-search", not an.viol and an.raises > 0, limit_raises=an.raises)
     # found-but-too-long dominates the slice that returns the frame (read_until) / the split (json)
     ru = db.fn("serializers.tools:GeneratorStreamReader.read_until")
-    test = next((n for n in own_nodes(ru.node) if isinstance(n, ast.If) and "sepidx" in ast.unparse(n.test) and "limit" in ast.unparse(n.test) and any(isinstance(r, ast.Raise) for r in n.body)), None)
-    slices = [n for n in own_nodes(ru.node) if isinstance(n, ast.Assign) and isinstance(n.value, ast.Subscript) and isinstance(n.value.slice, ast.Slice) and n.value.slice.lower is None and ast.unparse(n.targets[0]) == "data"]
+    found_vars = {k for k, vs in assignments(ru).items() for v in vs if isinstance(v, ast.Call) and _cname(v) == "find"}
+    test = next((n for n in own_nodes(ru.node) if isinstance(n, ast.If) and isinstance(n.test, ast.Compare) and dotted(n.test.left) in found_vars and "limit" in ast.unparse(n.test) and any(isinstance(r, ast.Raise) for r in n.body)), None)
+    ret_names = {dotted(r.value) for r in own_nodes(ru.node) if isinstance(r, ast.Return) and r.value is not None}
+    slices = [n for n in own_nodes(ru.node) if isinstance(n, ast.Assign) and isinstance(n.value, ast.Subscript) and isinstance(n.value.slice, ast.Slice) and n.value.slice.lower is None and dotted(n.targets[0]) in ret_names]
     ok = test is not None and bool(slices) and all(test.lineno < s.lineno for s in slices)
     if not ok:
         run.finding("C07.early", ru, test or ru.node, "read_until() no longer rejects a frame whose separator was found beyond the limit before slicing it out")
@@ -251,13 +253,14 @@ def check_fixed(eng, run):
         vals = v.value if isinstance(v, ast.Assign) else v
         # `self.__buffer_view_cache = self.__buffer = None` is recorded as the Assign node for tuple/multi targets
         src = ast.unparse(vals)
-        ok = src in ("None", "whole_buffer") or "create_buffer" in src
+        created = {t.id for n in own_nodes(f.node) if isinstance(n, ast.Assign) and "create_buffer" in ast.unparse(n.value) for t in n.targets if isinstance(t, ast.Name)}
+        ok = src == "None" or src in created or "create_buffer" in src
         if not ok:
             bad.append((f, v))
     # whole_buffer must come from protocol.create_buffer
     gw = ci.methods["get_write_buffer"]
-    wb = [n for n in own_nodes(gw.node) if isinstance(n, ast.Assign) and ast.unparse(n.targets[0]) == "whole_buffer"]
-    ok_src = bool(wb) and all("create_buffer" in ast.unparse(n.value) for n in wb)
+    wb = [n for n in own_nodes(gw.node) if isinstance(n, ast.Assign) and "create_buffer" in ast.unparse(n.value)]
+    ok_src = bool(wb)
     grow = [n for f in ci.methods.values() for n in own_nodes(f.node) if isinstance(n, ast.Call) and _cname(n) in ("extend", "append", "resize", "insert") and "buffer" in ast.unparse(n.func).lower()]
     aug = [n for f in ci.methods.values() for n in own_nodes(f.node) if isinstance(n, ast.AugAssign) and "buffer" in ast.unparse(n.target).lower() and isinstance(n.op, ast.Add) and "written" not in ast.unparse(n.target)]
     for f, v in bad:
@@ -284,8 +287,9 @@ def check_fixed(eng, run):
         for a in allocs:
             size = a.args[0] if a.args else None
             d = deps(f, size) if size is not None else set()
-            leaves = {x for x in d if x not in ("<yield>",)}
-            allowed = {"sizehint", "bufsize", f"{f.self_name}.__limit", f"{f.self_name}.__size", f.self_name}
+            local_names = set(assignments(f)) - {a.arg for a in f.params()}
+            leaves = {x for x in d if x not in ("<yield>",) and x not in local_names}  # true leaves: not intermediates
+            allowed = {a.arg for a in f.params()} | {f"{f.self_name}.__limit", f"{f.self_name}.__size", f.self_name}
             extra = {x for x in leaves if x not in allowed and not x.startswith(f"{f.self_name}.") and x not in ("min", "max", "int", "len", "memoryview", "bytearray")}
             if extra:
                 probs.append(f"the buffer size depends on {sorted(extra)}")
